@@ -1233,6 +1233,9 @@ htp_status_t htp_connp_RES_IDLE(htp_connp_t *connp) {
         }
 
         connp->in_state = htp_connp_REQ_FINALIZE;
+        // The inbound parser was interrupted and its data chunk is no longer
+        // available: drop the raw request data receiver, which refers to it.
+        connp->in_data_receiver_hook = NULL;
 #ifdef HTP_DEBUG
         fprintf(stderr, "picked up response w/o request");
 #endif
